@@ -208,7 +208,7 @@ Inductive df_op :=
 | DfUtc (sig : N)
 | DfFlush.
 
-Inductive df_out := DfRc (rc : N) | DfFault.   (* DfFault: NULL dereference *)
+Inductive df_out := DfRc (rc : N) | DfFault.   (* DfFault: a crash; no modelled call produces it (step_never_faults) *)
 
 Record df_wr := {
   dfw_src : N -> df_slot srcdef;
@@ -271,7 +271,7 @@ Definition df_wr_signal (w : df_wr) (d : sigdef) : df_wr * df_out :=
 
 (* jls_wr_user_data.  STRING/JSON take strlen(data) + 1 bytes (the buffer is taken to be NUL
    terminated: a list without NUL stands for that list followed by its terminator);
-   a NULL pointer with these types is dereferenced by strlen. *)
+   a NULL pointer with these types is refused. *)
 Definition df_wr_user_data (w : df_wr) (meta st : N) (data : strv) : df_wr * df_out :=
   let put pl := ({| dfw_src := dfw_src w; dfw_sig := dfw_sig w;
                     dfw_log := dfw_log w ++ [DfLUd (N.land meta 4095 + 4096 * st) pl]; dfw_data := dfw_data w |}, DfRc 0) in
@@ -279,7 +279,7 @@ Definition df_wr_user_data (w : df_wr) (meta st : N) (data : strv) : df_wr * df_
   else if st =? JLS_STORAGE_TYPE_BINARY then put (str_read data)
   else if (st =? JLS_STORAGE_TYPE_STRING) || (st =? JLS_STORAGE_TYPE_JSON) then
     match data with
-    | SNull => (w, DfFault)
+    | SNull => (w, DfRc JLS_ERROR_PARAMETER_INVALID)
     | SBytes l => put (df_cstr l ++ [0])
     end
   else (w, DfRc JLS_ERROR_PARAMETER_INVALID).
